@@ -3,7 +3,7 @@
 //! node. Nothing here calls into succinctly.
 
 use crate::rng::Rng;
-use crate::val::Val;
+pub use crate::val::Val;
 
 #[derive(Clone, Debug)]
 pub struct TreeOpts {
